@@ -25,7 +25,7 @@ ONE = 'one'
 OPEN_STATEMENTS = [
     'bk_code_valid: bravyi_kitaev_code(n) valid on all vectors for every n (only the finite test n <= 4 is kernel-checked; '
     'all n <= 8 (12 thorough) are covered exhaustively by the codes stream)',
-    'weight_one_binary_addressing_valid for every exponent; interleaved_code_valid for every even n (exhaustive small sizes only)',
+    'weight_one_binary_addressing_valid for every exponent (exhaustive for exponent <= 3 only)',
     'int_mul_valid: k * code is valid on the k-fold product domain (append_valid is proved; the iterated form is not)',
     'weight_two_segment_code valid on its whole domain: FALSE on the current tree (known finding C09-w2seg-decoder); '
     'proved on 13 of the 15 vectors (weight_two_segment_code_valid_partial)',
